@@ -49,7 +49,7 @@ class Aes0pad(pinblock.Iso4PinBlock, pinblock.AESEncryptedPinBlockMixin):
 
 
 def describe(t, r):
-    e = t['events'][r[2] - 1]
+    e = t['events'][min(r[2], len(t['events'])) - 1]
     return {'case': t['_desc'], 'op': e['op'], 'clause': r[3], 'pin': ''.join(map(str, e['pin'])), 'pan': ''.join(map(str, e['pan'])),
             'key_hex': bytes(e['key']).hex(), 'data_hex': bytes(e['data']).hex(), 'observed_kind': e['kind'],
             'observed': e.get('_observed') or (bytes(x & 255 for x in e['out']).hex() if e['op'] in ('iso0', 'iso4', 'tdes', 'aes') else e['out'])}
